@@ -90,7 +90,8 @@ pub enum Op {
     /// `must_succeed`: the fault-free load at the end of every run (the executor lifts any
     /// denial first and ignores error events of the plan): liveness once faults stop.
     Load { client: usize, plan: Plan, #[serde(default)] must_succeed: bool },
-    Query { client: usize, probe_seed: u64 },
+    /// `full`: every whole second within +-40 s of every entry (the once-per-table sweep).
+    Query { client: usize, probe_seed: u64, #[serde(default)] full: bool },
     Replace { image: usize },
     Deny { kind: ErrKind },
     Allow,
@@ -301,6 +302,14 @@ pub fn generate(seed: u64, run_index: u64, infos: &[PoolInfo]) -> Scenario {
     }
     let n_clients = rng.urange(1, 3);
     let n_ops = rng.urange(3, 12);
+    // A second, different image so that a replacement can change what is on disk.
+    if imgs.len() == 1 && infos.len() > 1 && rng.chance(3, 4) {
+        let mut other = rng.urange(0, infos.len() - 1);
+        if other == imgs[0] {
+            other = (other + 1) % infos.len();
+        }
+        imgs.push(other);
+    }
 
     // Swarm: which kinds of event exist at all in this run.
     let mut kinds: u32 = 0;
@@ -357,6 +366,7 @@ pub fn generate(seed: u64, run_index: u64, infos: &[PoolInfo]) -> Scenario {
         ops.push(Op::Query {
             client: 0,
             probe_seed: rng.next_u64(),
+            full: false,
         });
         loads += 1;
     }
@@ -380,16 +390,21 @@ pub fn generate(seed: u64, run_index: u64, infos: &[PoolInfo]) -> Scenario {
                 ops.push(Op::Query {
                     client,
                     probe_seed: rng.next_u64(),
+            full: false,
                 });
             }
         } else if r < 65 {
             ops.push(Op::Query {
                 client,
                 probe_seed: rng.next_u64(),
+            full: false,
             });
         } else if r < 78 {
             if kinds & K_REPLACE != 0 {
-                let img = *rng.pick(&imgs);
+                let mut img = *rng.pick(&imgs);
+                if img == current {
+                    img = *rng.pick(&imgs); // second draw: usually a different image
+                }
                 current = img;
                 ops.push(Op::Replace { image: img });
             }
@@ -421,6 +436,7 @@ pub fn generate(seed: u64, run_index: u64, infos: &[PoolInfo]) -> Scenario {
     ops.push(Op::Query {
         client: 0,
         probe_seed: rng.next_u64(),
+            full: false,
     });
 
     Scenario {
@@ -441,5 +457,6 @@ fn continue_or_query(ops: &mut Vec<Op>, client: usize, rng: &mut Rng) {
     ops.push(Op::Query {
         client,
         probe_seed: rng.next_u64(),
+            full: false,
     });
 }
